@@ -841,8 +841,16 @@ func c15Pool() []core.Scenario {
 			e := mk(closeQueue, 1, 0)
 			e.p.SetWorkerSizeMaximum(1)
 			gate := make(chan struct{})
-			e.p.Schedule(func() { <-gate })
-			time.Sleep(2 * time.Millisecond)
+			running := make(chan struct{})
+			e.p.Schedule(func() { close(running); <-gate })
+			select {
+			case <-running: // the only worker is inside the gated job: nothing leaves the queue any more
+			case <-time.After(20 * time.Second):
+				close(gate)
+				e.p.Close()
+				c.Inconclusive(id + ": the gated job never started")
+				return
+			}
 			for i := 0; i < 3; i++ {
 				e.p.Schedule(func() {})
 			}
@@ -854,6 +862,16 @@ func c15Pool() []core.Scenario {
 				up, _ = core.Catch(func() { err = e.p.ScheduleWithTimeout(func() {}, 10*time.Second) })
 			}()
 			time.Sleep(3 * time.Millisecond)
+			select {
+			case <-uDone:
+				// the call already returned (a second worker, spawned under the pool's initial maximum, made room): the
+				// window "retrying on a full queue while Close runs" was not reached in this run
+				c.Count("P6.call-returned-before-close", 1)
+				close(gate)
+				e.p.Close()
+				return
+			default:
+			}
 			cp, _ := core.Catch(func() { e.p.Close() })
 			v, dump := core.AwaitOrStuck(uDone, 2*time.Second, 60*time.Second, director.Get().Total)
 			close(gate)
@@ -863,7 +881,8 @@ func c15Pool() []core.Scenario {
 			}
 			if v == "stuck" {
 				c.Violationf("WorkerPool.ScheduleWithTimeout-vs-Close:deadlock", map[string]any{"scenario": id, "goroutines": core.RepoGoroutineSummary(dump)}, "ScheduleWithTimeout retrying on a full queue never returns after Close")
-			} else if err != worker.ErrWorkerPoolIsClosed && err != fpgo.ErrQueueIsClosed {
+			} else if err != worker.ErrWorkerPoolIsClosed && err != fpgo.ErrQueueIsClosed && err != nil {
+				// (nil = a retry was accepted in the instant before Close set its flag: a legal linearization)
 				c.Violationf("WorkerPool.ScheduleWithTimeout-vs-Close:wrong-result", rep, "ScheduleWithTimeout returned %v after the pool was closed", err)
 			}
 			checkHandler(c, id, e)
@@ -1100,8 +1119,106 @@ func c15Stress(id string, comp int, seed int64) core.Scenario {
 	}}
 }
 
+// many short-lived pools: every round 1..8 goroutines call Schedule / ScheduleWithTimeout in a loop (some jobs panic,
+// so that workers die while the pool closes) and one goroutine closes the pool after a PRNG-chosen number of yields.
+// Windows a few instructions wide that have no hook point are only reachable by volume.
+func c15PoolChurn(id string, rounds int, seed int64) core.Scenario {
+	return core.Scenario{ID: id, Class: "WorkerPool.churn", Run: func(c *core.Ctx) {
+		d := director.Get()
+		d.Reset(seed)
+		d.Yield(2, "pool.worker.checked", "pool.Schedule.checked", "pool.Schedule.offered", "pool.spawn.wake")
+		rng := rand.New(rand.NewSource(seed))
+		c.Eval(int64(rounds))
+		c.Distinct(id)
+		type jobPanic struct{ n int }
+		for r := 0; r < rounds; r++ {
+			users := 1 + rng.Intn(8)
+			spin := rng.Intn(60)
+			q := fpgo.NewBufferedChannelQueue[func()](1+rng.Intn(3), rng.Intn(4), 4)
+			q.SetLoadFromPoolDuration(50 * time.Microsecond)
+			var foreign atomic.Value
+			p := worker.NewDefaultWorkerPool(q, nil).SetWorkerSizeMaximum(1 + rng.Intn(3)).SetWorkerSizeStandBy(rng.Intn(2)).SetWorkerBatchSize(1).
+				SetSpawnWorkerDuration(50 * time.Microsecond).SetWorkerExpiryDuration(time.Duration(200+rng.Intn(800)) * time.Microsecond).
+				SetIsJobQueueClosedWhenClose(r%3 != 0).
+				SetPanicHandler(func(v interface{}) {
+					if _, own := v.(jobPanic); !own {
+						foreign.CompareAndSwap(nil, fmt.Sprint(v))
+					}
+				})
+			var stop atomic.Bool
+			var wg sync.WaitGroup
+			var mu sync.Mutex
+			panics := map[string]bool{}
+			for u := 0; u < users; u++ {
+				wg.Add(1)
+				go func(u int) {
+					defer wg.Done()
+					pv, where := core.Catch(func() {
+						for i := 0; i < 400 && !stop.Load(); i++ {
+							n := u*1000 + i
+							job := func() {
+								if n%7 == 3 {
+									panic(jobPanic{n})
+								}
+							}
+							if i%5 == 4 {
+								p.ScheduleWithTimeout(job, 100*time.Microsecond)
+							} else {
+								p.Schedule(job)
+							}
+						}
+					})
+					if pv != nil {
+						mu.Lock()
+						panics[core.NormalizePanic(fmt.Sprint(pv))+"@"+where] = true
+						mu.Unlock()
+					}
+				}(u)
+			}
+			for i := 0; i < spin; i++ {
+				runtime.Gosched()
+			}
+			cp, cwhere := core.Catch(p.Close)
+			stop.Store(true)
+			joined := make(chan struct{})
+			go func() { wg.Wait(); close(joined) }()
+			v, dump := core.AwaitOrStuck(joined, 2*time.Second, 60*time.Second, d.Total)
+			rep := map[string]any{"scenario": id, "round": r, "users": users}
+			if cp != nil {
+				c.Violationf("churn:close-panic:"+core.NormalizePanic(fmt.Sprint(cp)), rep, "WorkerPool.Close() racing %d scheduling goroutines panics: %v at %s", users, cp, cwhere)
+			}
+			for k := range panics {
+				c.Violationf("churn:user-panic:"+k, rep, "Schedule / ScheduleWithTimeout racing Close panicked in the calling goroutine (round %d): %s", r, k)
+			}
+			if f := foreign.Load(); f != nil {
+				c.Violationf("WorkerPool:panic-handler-invoked-for-non-job-panic:"+core.NormalizePanic(f.(string)), rep, "the pool's panic handler was invoked with %v, which is not a job's own panic", f)
+			}
+			if v == "stuck" {
+				c.Violationf("churn:deadlock", map[string]any{"scenario": id, "goroutines": core.RepoGoroutineSummary(dump)}, "scheduling goroutines never returned after Close (round %d)", r)
+				return
+			}
+			if !r3keep(r) {
+				// the queue was kept open by this pool: close it ourselves (single close)
+				core.Catch(q.Close)
+			}
+			if c.NumViolations() > 0 {
+				return
+			}
+		}
+		time.Sleep(20 * time.Millisecond) // a panic in a library-owned goroutine kills the process a little later
+	}}
+}
+
+func r3keep(r int) bool { return r%3 != 0 }
+
 func c15Scenarios(c *core.Ctx, race bool) []core.Scenario {
 	var out []core.Scenario
+	for i := 0; i < c.Pick(8, 32); i++ {
+		if race && i >= 2 {
+			break
+		}
+		out = append(out, c15PoolChurn(fmt.Sprintf("pool-churn-%d-race%v", i, race), c.Pick(400, 1500), c.Seed*67+int64(i)))
+	}
 	reps := c.Pick(1, 5)
 	if race {
 		reps = 1
